@@ -495,6 +495,11 @@ package twig
 //@   function
 //@ func (*RenderContext).ToString props: C08 C03
 //@   function
+// `in` on a list: "no" is answered only after every element was compared with equals (the map of
+// the elements that long lists are looked up in first can only say "yes")
+//@ func (*RenderContext).contains props: C08
+//@   loop 2 invariant[C08] 0 - 1 <= rangeindex && rangeindex < len(asList(container)) && (forall j int :: 0 <= j && j <= rangeindex ==> !fn_equals_0(ctx, asList(container)[j], item))
+//@   ensures[C08] typeIs(container, "[]interface{}") && !ret0 && ret1 == nil ==> (forall j int :: 0 <= j && j < len(asList(container)) ==> !fn_equals_0(ctx, asList(container)[j], item))
 //@ define bothNum() fn_toNumber_1(ctx, left) && fn_toNumber_1(ctx, right)
 //@ define lnum() fn_toNumber_0(ctx, left)
 //@ define rnum() fn_toNumber_0(ctx, right)
@@ -551,6 +556,21 @@ package twig
 //@   loop 1 snapshot fl0 fl
 //@   loop 1 snapshot r0 result
 //@   loop 1 step[C07] fl == emitFilter(fl0, ctx, filterChain[rangeindex].name, r0, filterChain[rangeindex].args) && result == filterRes(fl0, ctx, filterChain[rangeindex].name, r0, filterChain[rangeindex].args)
+// a {{ name|filter }} reference inside macro text: when a filter is named (and the context has an
+// environment) what is written is the string form of what that filter yields for the value of the
+// name - for every kind of value, not only for strings
+//@ func renderVariableString props: C07
+//@   atcall[C07] (*RenderContext).ToString (str_contains(varName, "|") && len(parts) == 2 && ctx.env != nil) ==> isFilterEvent(fl) && lastFilterCtx(fl) == ctx && lastFilterName(fl) == nth(filterName, 2) && lastFilterVal(fl) == baseValue && a1 == lastFilterRes(fl)
+// the default sandbox policy treats the two names of the escape filter alike
+//@ func NewDefaultSecurityPolicy props: C07
+//@   ensures[C07] has(ret.AllowedFilters, "e") == has(ret.AllowedFilters, "escape") && (has(ret.AllowedFilters, "e") ==> ret.AllowedFilters["e"] == ret.AllowedFilters["escape"])
+// a for tag always reaches the loop routine (which decides between body and else branch), whatever
+// its body looks like
+//@ ghost lfor Int
+//@ func (*ForNode).renderForLoop
+//@   ghostassign lfor n
+//@ func (*ForNode).Render props: C09
+//@   ensures[C09] ret == nil ==> lfor == n
 // an apply block applies its filter, under the name written, to the rendered body and writes the
 // string form of what the filter yields - on every path that ends without an error
 //@ func (*ApplyNode).Render props: C07
